@@ -280,6 +280,142 @@ pub mod sync {
             };
         }
 
+        /// Instrumented `AtomicPtr`. Events name the atomic (`at`) and the
+        /// pointers it holds by `State::ptr_id`, so that a harness which
+        /// registered its objects sees small stable numbers. Never dropped
+        /// objects only (statics / leaked nodes): no identity tracking.
+        pub struct AtomicPtr<T> {
+            inner: ::std::sync::atomic::AtomicPtr<T>,
+        }
+
+        impl<T> AtomicPtr<T> {
+            pub const fn new(p: *mut T) -> Self {
+                Self { inner: ::std::sync::atomic::AtomicPtr::new(p) }
+            }
+
+            fn at(&self) -> usize {
+                self as *const Self as usize
+            }
+
+            pub fn load(&self, order: Ordering) -> *mut T {
+                let Some(c) = sched::ctx() else {
+                    return self.inner.load(order);
+                };
+                c.sched.point(c.tid, Op::Step, |st| {
+                    let v = self.inner.load(order);
+                    let at = st.ptr_id(self.at());
+                    let val = st.ptr_id(v as usize);
+                    st.log(
+                        c.tid,
+                        &Ev::new("aptr_load")
+                            .u("at", at)
+                            .s("ord", ord_name(order))
+                            .u("val", val),
+                    );
+                    v
+                })
+            }
+
+            pub fn store(&self, v: *mut T, order: Ordering) {
+                let Some(c) = sched::ctx() else {
+                    return self.inner.store(v, order);
+                };
+                c.sched.point(c.tid, Op::Step, |st| {
+                    self.inner.store(v, order);
+                    let at = st.ptr_id(self.at());
+                    let val = st.ptr_id(v as usize);
+                    st.log(
+                        c.tid,
+                        &Ev::new("aptr_store")
+                            .u("at", at)
+                            .s("ord", ord_name(order))
+                            .u("val", val),
+                    );
+                })
+            }
+
+            fn cas(
+                &self,
+                weak: bool,
+                current: *mut T,
+                new: *mut T,
+                success: Ordering,
+                failure: Ordering,
+            ) -> Result<*mut T, *mut T> {
+                let Some(c) = sched::ctx() else {
+                    return if weak {
+                        self.inner.compare_exchange_weak(
+                            current, new, success, failure,
+                        )
+                    } else {
+                        self.inner
+                            .compare_exchange(current, new, success, failure)
+                    };
+                };
+                c.sched.point(c.tid, Op::Step, |st| {
+                    let seen = self.inner.load(Ordering::SeqCst);
+                    // A weak exchange that would succeed may fail anyway.
+                    let spurious = weak && seen == current && st.flip();
+                    let result = if spurious {
+                        Err(seen)
+                    } else {
+                        self.inner
+                            .compare_exchange(current, new, success, failure)
+                    };
+                    let at = st.ptr_id(self.at());
+                    let exp = st.ptr_id(current as usize);
+                    let newid = st.ptr_id(new as usize);
+                    let old = st.ptr_id(seen as usize);
+                    st.log(
+                        c.tid,
+                        &Ev::new("aptr_cas")
+                            .u("at", at)
+                            .b("weak", weak)
+                            .u("exp", exp)
+                            .u("new", newid)
+                            .s("ord", ord_name(success))
+                            .s("ford", ord_name(failure))
+                            .b("ok", result.is_ok())
+                            .u("old", old),
+                    );
+                    result
+                })
+            }
+
+            pub fn compare_exchange_weak(
+                &self,
+                current: *mut T,
+                new: *mut T,
+                success: Ordering,
+                failure: Ordering,
+            ) -> Result<*mut T, *mut T> {
+                self.cas(true, current, new, success, failure)
+            }
+
+            pub fn compare_exchange(
+                &self,
+                current: *mut T,
+                new: *mut T,
+                success: Ordering,
+                failure: Ordering,
+            ) -> Result<*mut T, *mut T> {
+                self.cas(false, current, new, success, failure)
+            }
+
+            pub fn get_mut(&mut self) -> &mut *mut T {
+                self.inner.get_mut()
+            }
+        }
+
+        impl<T> ::std::fmt::Debug for AtomicPtr<T> {
+            fn fmt(
+                &self,
+                f: &mut ::std::fmt::Formatter<'_>,
+            ) -> ::std::fmt::Result {
+                self.inner.fmt(f)
+            }
+        }
+
         atomic_int!(AtomicUsize, ::std::sync::atomic::AtomicUsize, usize);
         atomic_int!(AtomicIsize, ::std::sync::atomic::AtomicIsize, isize);
         atomic_int!(AtomicU64, ::std::sync::atomic::AtomicU64, u64);
